@@ -1,4 +1,5 @@
 import Crusta.Proofs.Sat
+import Crusta.Proofs.SatRoundTrip
 
 /-!
 # C15 — SAT solver objects honour the incremental solving contract (property theorems)
@@ -36,5 +37,29 @@ theorem cad_model_length (values : List (Option Bool)) (maxVar reserved : Nat) :
   unfold cadModel cadNVars
   simp only [List.length_append, List.length_take, List.length_replicate]
   omega
+
+/-- **the external-process wrapper is exactly as sound as the program it runs.**  After any
+history of clause additions, reservations and earlier calls, and for any assumptions: the program
+receives a text that denotes exactly the clauses added so far plus the assumptions of this call
+(`readDimacs`), so if it answers — in any layout of `v` lines and comments — with a model `m` of
+*what it received*, the wrapper reports exactly `m`, and `m` satisfies every clause added so far and
+every assumption of the call; if it answers `s UNSATISFIABLE`, the wrapper reports unsatisfiable.
+Nothing of the assumptions is kept for the next call (`incremental`). -/
+theorem external_wrapper_sound (ops : List BOp) (as : List Lit)
+    (hops : ∀ op ∈ ops, op.Proper) (has : ∀ a ∈ as, 1 ≤ a.var)
+    (m : List Bool) (lay : Layout) (hlay : lay.Ok) (hm : m.length ≤ 9223372036854775807) :
+    let b := ops.foldl Buffered.apply {}
+    ∃ nv nc cls, readDimacs (b.dimacs as) = some (nv, nc, cls) ∧
+      (cnfTrue (asgOfModel (m.map some)) cls = true →
+        parseReply m.length (renderModel m lay) = .sat (m.map some) ∧
+        (∀ c ∈ b.clauses, clauseTrue (asgOfModel (m.map some)) c = true) ∧
+        (∀ a ∈ as, litTrue (asgOfModel (m.map some)) a = true)) ∧
+      (∀ pre post, (∀ l ∈ pre, Noise l) → (∀ l ∈ post, Noise l) → parseReply nv (renderUnsat pre post) = .unsat) := by
+  intro b
+  obtain ⟨nv, nc, cls, hread, hcls, _, _, _⟩ := Sat.dimacs_header_exact ops as hops has
+  refine ⟨nv, nc, cls, hread, ?_, fun pre post hpre hpost => Sat.parseReply_renderUnsat nv pre post hpre hpost⟩
+  intro hsat
+  have h2 := instance_model b as (asgOfModel (m.map some)) (by rw [← hcls]; exact hsat)
+  exact ⟨Sat.parseReply_renderModel m lay hlay hm, h2.1, h2.2⟩
 
 end Crusta.C15
